@@ -248,9 +248,9 @@ func init() {
 	}
 
 	Registry["C03"] = func(t Tier) *Check {
-		d := 3
+		d := 4
 		if t == Thorough {
-			d = 4
+			d = 5
 		}
 		fam := bigFamily()
 		u := []ct.Comp{ct.P, ct.Q, ct.R1, ct.R2}
@@ -326,9 +326,9 @@ func init() {
 	}
 
 	Registry["C06"] = func(t Tier) *Check {
-		d := 4
+		d := 3
 		if t == Thorough {
-			d = 5
+			d = 4
 		}
 		u := []ct.Comp{ct.P, ct.Q, ct.R1, ct.T9, ct.R2, ct.S}
 		filters := []model.FilterSpec{
